@@ -43,6 +43,13 @@ CHECKS = {
         "Trusted: monitor wrappers on the app instance; ticking virtual clock (unique change times).",
         "DESIGN.md 3 C10",
     ),
+    "C06": (
+        "exploration",
+        "Hypothesis-generated cases (task options x submissions x submission path x runners x schedule seed), one deterministic-scheduler execution each; oracle = replay of a monitor log with harness-computed concurrency keys",
+        "Each generated case runs runner actors (polls) and worker actors (invocation.run with multi-step bodies and first-attempt retries) under a seeded random / PCT / non-preemptive schedule on Mem (line level) and SQLite (statement level). The monitor's log of accepted transitions, concurrency checks, queue pops and poll failures is replayed: never two RUNNING per key, no failing poll, every block decision has a same-key PENDING/RUNNING holder, blocked invocations end CONCURRENCY_CONTROLLED_FINAL or re-queued per option, nothing available is left un-queued at quiescence.",
+        "Trusted: key computation in the harness; scheduler stand-ins; change visibility bracketed by [record time, return time] so stale-read classifications never rest on a tie. Two listed known findings are excluded by construction and re-confirmed by directed probes.",
+        "DESIGN.md 3 C06, A.5",
+    ),
 }
 
 NOT_YET = "check not built yet in this session (work in progress, see DESIGN.md section 3)"
